@@ -32,7 +32,7 @@ class G:
 
     # ------------------------------------------------------------------ markup
     def inline(self):
-        r = self.r.below(22)
+        r = self.r.below(23)
         if r < 4:
             return self.r.pick(["text", "lorem ipsum", "a", "word.", "x,y", "1.5", "don't", "a b"])
         if r < 6:
@@ -62,6 +62,10 @@ class G:
             return "#[" + G(self.r, self.depth + 1).markup_body(2) + "]"
         if r < 20:
             return "@" + self.word() + "[" + self.word() + "]"
+        if r < 21 and self.depth < 3:
+            inner = "#" + self.r.pick(["rect(width: 10pt, height: 20pt)", "f(alpha, beta, gamma: 1)", "text(fill: red, size: 10pt)[a]",
+                                       "(1, 2, 3).map(x => x + 1)", "g((a: 1, b: 2), [c])"])
+            return "#" + self.r.pick(["box", 'link("u")', "strong", "text(red)", "f(1)"]) + "[" + inner + "]"
         return self.word()
 
     def prose_line(self, n):
@@ -142,7 +146,7 @@ class G:
         return self.r.pick(["a", "x", "n"])
 
     def matom_simple(self):
-        return self.r.pick(["a", "b", "x", "2", "(a b)", "n", "alpha", "#(1)x", "#(n)", "#(-1)b"])
+        return self.r.pick(["a", "b", "x", "2", "(a b)", "n", "alpha", "#(1)x", "#(n)", "#(-1)b", "( a b )", "(a )", "( a+b)"])
 
     def msp(self, allow_none):
         r = self.r.below(16)
@@ -295,6 +299,9 @@ class G:
                 cells.append("..rest")
             else:
                 cells.append(self.r.pick(["inset: 2pt", "fill: red"]))
+        if self.r.chance(1, 4):
+            # a shared preset in front of (or between) the options: `table(..style, columns: 2, [a])`
+            named.insert(self.r.below(len(named) + 1), self.r.pick(["..style", "..base", "..(stroke: none)"]))
         args = named + cells
         if self.r.chance(1, 6):
             self.r_shuffle(args)
